@@ -89,19 +89,12 @@ fn family_budget(prop: &str, tier: &str, scale: f64) -> family::Budget {
         _ => (100_000, 1_000_000),
     };
     if tier == "miri" {
-        return family::Budget { g1_len: 2, g1_alphas: 1, g1_sampled: 0, random: sc(q_rand), long: 0, long_size: 0 };
+        return family::Budget { g1_lens: [2, 0, 0], g1_sampled: 0, random: sc(q_rand), long: 0, long_size: 0 };
     }
     if thorough {
-        family::Budget {
-            g1_len: 5,
-            g1_alphas: 3,
-            g1_sampled: sc(2_000_000),
-            random: sc(t_rand),
-            long: 42,
-            long_size: 30_000,
-        }
+        family::Budget { g1_lens: [6, 5, 5], g1_sampled: sc(2_000_000), random: sc(t_rand), long: 42, long_size: 30_000 }
     } else {
-        family::Budget { g1_len: 4, g1_alphas: 2, g1_sampled: sc(40_000), random: sc(q_rand), long: 14, long_size: 4_000 }
+        family::Budget { g1_lens: [4, 4, 0], g1_sampled: sc(40_000), random: sc(q_rand), long: 14, long_size: 4_000 }
     }
 }
 
@@ -218,8 +211,11 @@ fn main() {
     }
     match a[0].as_str() {
         "run" => {
-            util::start_watchdog(60);
-            run(&parse_args(&a[1..]))
+            let args = parse_args(&a[1..]);
+            // C11 does its work in child processes (each with its own time limit): the in-worker
+            // no-progress watchdog is only a last resort there
+            util::start_watchdog(if args.prop == "C11" { 1800 } else { 60 });
+            run(&args)
         }
         "replay" => replay(&a[1]),
         "distinct" => distinct(&a[1..]),
